@@ -84,8 +84,122 @@ Proof.
     + cbv beta iota delta [upd String.eqb Ascii.eqb Bool.eqb]. lia.
 Qed.
 
+(* evaluation under environments built by upd / zeroed / clobber on concrete names: the prefix tests are computed *)
+Ltac prefix_simpl :=
+  repeat match goal with
+         | |- context [String.prefix ?a ?b] => let r := eval vm_compute in (String.prefix a b) in change (String.prefix a b) with r
+         end;
+  cbv beta iota.
+Ltac ceval_env :=
+  cbv beta iota zeta delta [ceval evals binop b2z c_bits c_signed upd zeroed clobber String.eqb Ascii.eqb Bool.eqb negb String.append
+                            u8 s8 u16 s16 u32 s32 u64 s64];
+  prefix_simpl.
+Ltac env_simpl := cbv beta iota delta [zeroed clobber upd String.eqb Ascii.eqb Bool.eqb]; prefix_simpl.
+
+(* libwifi_create_tag: the object is zeroed, number and length are stored through the one-octet conversions the C code makes (a number
+   or a length beyond 255 is silently reduced modulo 256 - stated here as what the code does, the properties quantify up to 255), one
+   allocation of tag_length bytes, -ENOMEM (as a size_t) on NULL, else the body block is cleared and filled and 2 + tag_length returned *)
+Theorem code_create_tag rho num tl q :
+  - 2 ^ 31 <= num < 2 ^ 31 -> 0 <= tl < 2 ^ 63 -> rho "ret:malloc" = q -> 0 <= q < 2 ^ 63 ->
+  let rho0 := upd (upd rho "tag_number" num) "tag_length" tl in
+  let pre := [("memset", [wrap u64 (rho "tagged_parameter"); 0; 10]); ("malloc", [tl])] in
+  if (q =? 0)%Z then observe (exec 40 m rho0 [] body_libwifi_create_tag) = Some (Some (2 ^ 64 - 12), pre)
+  else exists rho',
+    exec 40 m rho0 [] body_libwifi_create_tag =
+      Returned (Some (2 + tl)) rho'
+        (pre ++ [("memset", [q; 0; tl]); ("memcpy", [q; wrap u64 (rho "tag_data"); tl])]) /\
+    rho' "tagged_parameter->header.tag_len" = tl mod 256 /\ rho' "tagged_parameter->header.tag_num" = num mod 256 /\
+    rho' "tagged_parameter->body" = q.
+Proof.
+  intros Hnum Htl Hq Hq0 rho0 pre; nums.
+  unfold pre, rho0, body_libwifi_create_tag; clear pre rho0.
+  erewrite exec_call by (ceval_env; wrap_ids; reflexivity). rewrite exec_zero.
+  destruct (Z.eqb_spec q 0) as [Eq | Nq].
+  - repeat first [ erewrite exec_set by (ceval_env; wrap_ids; reflexivity)
+                 | erewrite exec_call by (ceval_env; wrap_ids; reflexivity) ].
+    erewrite exec_if_gen with (bb := true).
+    2:{ ceval_env. rewrite Hq, Eq. wrap_ids. reflexivity. }
+    cbv beta iota.
+    erewrite exec_ret by (ceval_env; wrap_ids; reflexivity). cbn [observe app]. list_eq.
+  - eexists. split.
+    + repeat first [ erewrite exec_set by (ceval_env; wrap_ids; reflexivity)
+                   | erewrite exec_call by (ceval_env; wrap_ids; reflexivity) ].
+      erewrite exec_if_gen with (bb := false).
+      2:{ ceval_env. rewrite Hq. wrap_ids. destruct (Z.eqb_spec q 0); [contradiction | reflexivity]. }
+      cbv beta iota. rewrite exec_nil.
+      repeat first [ erewrite exec_call by (ceval_env; rewrite ?Hq; wrap_ids; reflexivity)
+                   | erewrite exec_ret by (ceval_env; wrap_ids; reflexivity) ].
+      cbn [app]. apply Returned_eq; [reflexivity | reflexivity | ].
+      env_simpl. list_eq.
+    + env_simpl.
+      unfold wrap, modulus; cbn [c_signed c_bits]. change (2 ^ 8) with 256. rewrite !Z.mod_mod by lia.
+      repeat split; try reflexivity. rewrite Hq. wrap_ids. reflexivity.
+Qed.
+
+(* libwifi_quick_add_tag: c is what libwifi_create_tag answers (a size_t), r what libwifi_add_tag answers.  The answer of create_tag is
+   narrowed to int; not positive: it is returned and nothing else is called; otherwise add_tag's answer is returned AFTER the temporary
+   element has been released, whether add_tag succeeded or not *)
+Theorem code_quick_add_tag rho c r :
+  rho "ret:libwifi_create_tag" = c -> 0 <= c < 2 ^ 64 -> rho "ret:libwifi_add_tag" = r -> - 2 ^ 31 <= r < 2 ^ 31 ->
+  let ci := wrap s32 c in
+  exists a1 a2 a3,
+  observe (exec 40 m rho [] body_libwifi_quick_add_tag) =
+    (if ci <=? 0 then Some (Some ci, [("libwifi_create_tag", a1)])
+     else Some (Some r, [("libwifi_create_tag", a1); ("libwifi_add_tag", a2); ("libwifi_free_tag", a3)])).
+Proof.
+  intros Hc Hc0 Hr Hr0 ci; nums. unfold ci, s32; clear ci.
+  unfold body_libwifi_quick_add_tag.
+  eexists. eexists. eexists.
+  erewrite exec_call by ceval_now. rewrite exec_clobber.
+  erewrite exec_set.
+  2:{ ceval_env. rewrite Hc. wrap_ids. reflexivity. }
+  assert (Hci : - 2147483648 <= wrap (mkty true 32) c < 2147483648).
+  { unfold wrap, modulus, tmax; cbn [c_signed c_bits].
+    change (2 ^ 32) with 4294967296. change (2 ^ (32 - 1) - 1) with 2147483647.
+    pose proof (Z.mod_pos_bound c 4294967296 ltac:(lia)) as Hm.
+    destruct (Z.leb_spec (c mod 4294967296) 2147483647); lia. }
+  erewrite exec_if_gen with (bb := (wrap (mkty true 32) c <=? 0)).
+  2:{ ceval_env. wrap_ids. reflexivity. }
+  destruct (Z.leb_spec (wrap (mkty true 32) c) 0) as [Hneg | Hpos].
+  - erewrite exec_ret.
+    2:{ ceval_env. wrap_ids. reflexivity. }
+    cbn [observe app]. reflexivity.
+  - rewrite exec_nil.
+    erewrite exec_call by ceval_now. rewrite exec_clobber.
+    erewrite exec_set.
+    2:{ ceval_env. rewrite Hr. wrap_ids. reflexivity. }
+    erewrite exec_call by ceval_now. rewrite exec_clobber.
+    erewrite exec_ret.
+    2:{ ceval_env. wrap_ids. reflexivity. }
+    cbn [observe app]. reflexivity.
+  Unshelve. all: exact [].
+Qed.
+
+(* libwifi_free_action_detail releases the block exactly when a length is recorded, and then records none *)
+Theorem code_free_action_detail rho dl :
+  0 <= dl < 256 ->
+  let rho0 := upd rho "detail->detail_length" dl in
+  if (dl =? 0)%Z then observe (exec 20 m rho0 [] body_libwifi_free_action_detail) = Some (None, [])
+  else exists rho', exec 20 m rho0 [] body_libwifi_free_action_detail = Fell rho' [("free", [wrap u64 (rho "detail->detail")])] /\
+       rho' "detail->detail_length" = 0.
+Proof.
+  intros Hdl rho0; nums. unfold rho0, body_libwifi_free_action_detail; clear rho0.
+  destruct (Z.eqb_spec dl 0) as [E | N].
+  - erewrite exec_if_gen with (bb := false).
+    2:{ ceval_unfold. wrap_ids. destruct (Z.eqb_spec dl 0); [reflexivity | contradiction]. }
+    cbv beta iota. rewrite !exec_nil. reflexivity.
+  - erewrite exec_if_gen with (bb := true).
+    2:{ ceval_unfold. wrap_ids. destruct (Z.eqb_spec dl 0); [contradiction | reflexivity]. }
+    cbv beta iota.
+    erewrite exec_call by ceval_now. erewrite exec_set by ceval_now. rewrite !exec_nil.
+    eexists. split; [reflexivity | ]. cbv beta iota delta [upd String.eqb Ascii.eqb Bool.eqb]. reflexivity.
+Qed.
+
 
 End WithMemory.
 
 Print Assumptions code_add_tag.
 Print Assumptions code_add_action_detail.
+Print Assumptions code_create_tag.
+Print Assumptions code_quick_add_tag.
+Print Assumptions code_free_action_detail.
